@@ -203,7 +203,12 @@ def run(ck, m):
         already = h.type is not None and norm(h.type) == "AttributeError"
         ck.ob("R4", h, closes, f"handler `except {norm(h.type) if h.type else ''}` of ImageIterator.__next__ must close the iterator (releasing the image)" + (" on the not-already-closed branch" if already else ""),
               stmt=f"ImageIterator.__next__: except {norm(h.type) if h.type else ''} closes")
-    ck.expect(tr is not None and len(tr.handlers) >= 3, "ImageIterator.__next__ handlers not found")
+    ck.expect(tr is not None and len(tr.handlers) >= 1, "ImageIterator.__next__ handlers not found")
+    if tr is not None and tr.handlers:
+        caught = {norm(e) for h in tr.handlers for e in ((h.type.elts if isinstance(h.type, ast.Tuple) else [h.type]) if h.type is not None else [ast.Name(id="BaseException")])}
+        ck.ob("R4", tr, bool(caught & {"Exception", "BaseException"}) and "StopIteration" in caught | ({"StopIteration"} if caught & {"Exception", "BaseException"} else set()),
+              f"ImageIterator.__next__ must handle the end of iteration and every Exception of the frame generator (closing the iterator, which releases the image); its handlers catch only {sorted(caught)}",
+              stmt="ImageIterator.__next__: a handler catches Exception")
     rcalls = [c for c in body_walk(an) if isinstance(c, ast.Call) and norm(c.func) == "image._render_image"]
     ck.expect(len(rcalls) == 2, "_animate: the two render calls not found")
     for c in rcalls:
